@@ -133,3 +133,14 @@ def decide(decls, queries):
         else:
             final[qid] = {"verdict": "inconclusive", "solvers": vs, "raw": {n: per[n].get(qid, ("", None, ""))[2][:300] for n in per}}
     return final, stats, script
+
+
+def feasible(decls, assumes):
+    """False only if z3 AND cvc5 both answer `unsat` for the conjunction; True on sat, unknown, error or disagreement"""
+    script = build_script(decls, [("f", list(assumes), "true", [])])
+    for name, cmd in available():
+        out, _ = run_solver(cmd, script, timeout=20)
+        res = parse_output(out) if out != "TIMEOUT" else {}
+        if res.get("f", ("unknown",))[0] != "unsat":
+            return True
+    return True if not available() else False
